@@ -1000,9 +1000,14 @@ impl ElementRaw {
             // compare the new element to the existing elements
             for (idx, content_item) in self.content.iter().enumerate() {
                 if let ElementContent::Element(subelement) = content_item {
-                    let (_, existing_element_indices) = elemtype
+                    // an existing sub element is not necessarily valid in this version, e.g. if a file with a lower version was added
+                    let Some((_, existing_element_indices)) = elemtype
                         .find_sub_element(subelement.element_name(), version as u32)
-                        .unwrap();
+                        .or_else(|| elemtype.find_sub_element(subelement.element_name(), u32::MAX))
+                    else {
+                        end_pos = idx + 1;
+                        continue;
+                    };
                     let group_type = elemtype.find_common_group(&new_element_indices, &existing_element_indices);
                     match group_type.content_mode() {
                         ContentMode::Sequence => {
